@@ -214,7 +214,17 @@ func (w *ccWorld) RoundTrip(req *http.Request) (*http.Response, error) {
 		return nil, netError{msg: "net/http: request canceled (Client.Timeout exceeded)", timeout: true}
 	}
 	rec := httptest.NewRecorder()
-	p.handler.ServeHTTP(rec, req)
+	panicked := func() (v interface{}) {
+		// net/http's server recovers a panicking handler and drops the connection; the proxy process survives
+		defer func() { v = recover() }()
+		p.handler.ServeHTTP(rec, req)
+		return nil
+	}()
+	if panicked != nil {
+		w.r.Probe("admin-handler-panicked")
+		note(fmt.Sprintf("the handler panicked (%v): connection closed without a response", panicked))
+		return nil, netError{msg: "read tcp " + p.host + ": EOF"}
+	}
 	switch f {
 	case "response-lost":
 		w.r.Fault("response-lost")
